@@ -57,9 +57,14 @@ class InProcMonitor(pp.TransferMonitor):
 
     def notify_cancel_all_in_progress(self):
         # (observation) which downloads are unfinished at the moment the Ctrl-C handler cancels
+        # judged when the cancel pass has RETURNED: a download that is still unfinished then must carry
+        # the cancellation (one that finished while the pass was running legitimately keeps its result -
+        # an earlier version took the snapshot before the pass and raised a false alarm at 2 preemptions)
         s = detsched.active()
-        s.emit('pp.cancel_all', undone=[tid for tid, st in self._transfer_states.items() if not st.done])
-        return super().notify_cancel_all_in_progress()
+        r = super().notify_cancel_all_in_progress()
+        s.emit('pp.cancel_all', undone=[tid for tid, st in self._transfer_states.items()
+                                        if not st.done and st.exception is None])
+        return r
 
 
 class InProcManager:
@@ -370,8 +375,8 @@ def judge(w):
                 ca = [e for e in log if e[2] == 'pp.cancel_all']
                 if ca and tid in ca[0][3]['undone']:
                     out.append(('C19:ctrlc-did-not-cancel',
-                                f'download {i} succeeded although it was unfinished when Ctrl-C left the with-block '
-                                f'(unfinished at that moment: transfer ids {ca[0][3]["undone"]})'))
+                                f'download {i} succeeded: it was still unfinished, and not marked cancelled, when the Ctrl-C handler '
+                                f'of the with-block had finished cancelling (such transfer ids: {ca[0][3]["undone"]})'))
             elif oc and not isinstance(oc[1], CancelledError):
                 out.append(('C19:ctrlc-wrong-error', f'download {i}: {oc[1]!r}'))
     if getattr(w, 'fs_violation', None):
